@@ -39,13 +39,19 @@ def gen_setup(rng, nmax=40, allow_metric=True):
             c = np.insert(c, pos, c[j], axis=0)
             v = np.insert(v, pos, v[j] + rng.choice([0.0, 5.0, -3.0]))
     model = rng.choice(MODELS)
-    metric = rng.choice(['euclidean', 'euclidean', 'euclidean', 'cityblock', 'chebyshev']) if allow_metric else 'euclidean'
-    dmax = float(pdist(c, metric).max())
+    metric = rng.choice(['euclidean', 'euclidean', 'euclidean', 'cityblock', 'chebyshev', 'minkowski']) if allow_metric else 'euclidean'
+    mkw = {'p': rng.choice([1.5, 3.0, 1.0])} if metric == 'minkowski' else {}
+    if mkw and dup:
+        # a metric with keyword arguments is only reachable through a MetricSpace, which is used as it is (no duplicate removal)
+        _, idx = np.unique(c, axis=0, return_index=True)
+        keep = np.sort(idx)
+        c, v, dup = c[keep], v[keep], 0
+    dmax = float(pdist(c, metric, **mkw).max())
     how = rng.choice(['manual', 'manual', 'fit'])
     nugget = rng.choice([0.0, 0.0, 0.5, 2.0])
     if how == 'manual':
         # a range that is an occurring distance half of the time (boundary of the neighbourhood)
-        ud = sorted(set(float(x) for x in pdist(c, metric)))
+        ud = sorted(set(float(x) for x in pdist(c, metric, **mkw)))
         rngv = rng.choice(ud[len(ud) // 4: 3 * len(ud) // 4 + 1]) if rng.random() < 0.5 else round(rng.uniform(0.25, 0.8) * dmax * 4) / 4.0
         vk = dict(fit_method='manual', fit_range=float(rngv), fit_sill=float(rng.choice([1.0, 4.0, 10.0])))
         if nugget:
@@ -72,7 +78,7 @@ def gen_setup(rng, nmax=40, allow_metric=True):
         else:
             p = [float(rng.randint(int(lo[d]), int(hi[d]) + 1)) for d in range(dim)]
         targets.append(p)
-    return {'coords': c.tolist(), 'values': v.tolist(), 'model': model, 'metric': metric, 'vkw': vk, 'min_points': minp, 'max_points': maxp,
+    return {'coords': c.tolist(), 'values': v.tolist(), 'model': model, 'metric': metric, 'mkw': mkw, 'ok_coords_as': rng.choice(['variogram', 'metricspace']) if mkw else 'variogram', 'vkw': vk, 'min_points': minp, 'max_points': maxp,
             'targets': targets, 'solver': rng.choice(['inv', 'numpy', 'scipy']), 'sparse': metric == 'euclidean' and rng.random() < 0.4,
             'tags': {'points': kind, 'dim': dim, 'n': n, 'model': model, 'how': how, 'nugget': nugget, 'duplicates': dup}}
 
@@ -80,13 +86,24 @@ def gen_setup(rng, nmax=40, allow_metric=True):
 def make_variogram(setup, values=None):
     c = np.array(setup['coords'], float)
     v = np.array(setup['values'] if values is None else values, float)
+    if setup.get('mkw'):
+        c = MetricSpace(c, setup['metric'], dist_metric_kwargs=dict(setup['mkw']))
     return Variogram(c, v, model=setup['model'], dist_func=setup['metric'], n_lags=8, **setup['vkw'])
+
+
+def target_space(setup, T, max_dist=None):
+    return MetricSpace(np.array(T, float).copy(), setup['metric'], max_dist, dist_metric_kwargs=dict(setup.get('mkw') or {}))
 
 
 def make_ok(setup, V=None, **over):
     V = V or make_variogram(setup)
     kw = dict(min_points=setup['min_points'], max_points=setup['max_points'], mode='exact', solver=setup['solver'], sparse=setup['sparse'])
     kw.update(over)
+    if setup.get('mkw') and 'coordinates' not in kw and setup.get('ok_coords_as') == 'metricspace':
+        # the keyword arguments of the metric travel with the MetricSpace only
+        kw['coordinates'] = MetricSpace(np.array(setup['coords'], float), setup['metric'], dist_metric_kwargs=dict(setup['mkw']))
+        kw.setdefault('values', np.asarray(V.values, float).copy() if isinstance(V, Variogram) else np.array(setup['values'], float))
+        kw['sparse'] = False
     return OrdinaryKriging(V, **kw), V
 
 
@@ -118,7 +135,8 @@ def brute_force(V, setup, target, coords=None, values=None):
     v = np.array(setup['values'] if values is None else values, float)
     rng_ = V.describe()['effective_range']
     gamma = V.fitted_model
-    d = cdist(np.array([target], float), c, setup['metric'])[0]
+    mkw = setup.get('mkw') or {}
+    d = cdist(np.array([target], float), c, setup['metric'], **mkw)[0]
     W = np.where(d <= rng_)[0]
     if len(W) < setup['min_points']:
         return float('nan'), float('nan'), 'nan'
@@ -129,7 +147,7 @@ def brute_force(V, setup, target, coords=None, values=None):
             return None, None, 'tie'
         W = order[:N]
     n = len(W)
-    D = squareform(pdist(c[W], setup['metric'])) if n > 1 else np.zeros((1, 1))
+    D = squareform(pdist(c[W], setup['metric'], **mkw)) if n > 1 else np.zeros((1, 1))
     G = np.array(gamma(D.flatten())).reshape(n, n) if n > 0 else np.zeros((0, 0))
     np.fill_diagonal(G, 0.0)
     A = np.ones((n + 1, n + 1))
@@ -164,7 +182,7 @@ def check_setup(ctx, model, setup, oracle=True, prop='C07'):
         ctx.count(k, v)
     ctx.count('solver', setup['solver'])
     ctx.count('sparse', setup['sparse'])
-    ctx.count('metric', setup['metric'])
+    ctx.count('metric', setup['metric'] + (str(setup['mkw']) if setup.get('mkw') else ''))
     try:
         ok, V = make_ok(setup)
         rec = Recorder(ok)
@@ -230,7 +248,7 @@ def check_setup(ctx, model, setup, oracle=True, prop='C07'):
                         {'target': i, 'n': n, 'impl_last_row': a[-1].tolist(), 'impl_diag': np.diag(a).tolist()})
             results.append(None)
             continue
-        d0 = cdist(np.array([p], float), np.asarray(ok.coords.coords)[idx], setup['metric'])[0]
+        d0 = cdist(np.array([p], float), np.asarray(ok.coords.coords)[idx], setup['metric'], **(setup.get('mkw') or {}))[0]
         g0 = np.asarray(ok.gamma_model(d0), float)
         if len(b) != n + 1 or b[-1] != 1 or not all(gen.close(x, y, 1e-9, 1e-12) for x, y in zip(b[:-1], g0)):
             ctx.problem('correspondence', 'right-hand side is not [gamma(d(target, neighbour_i))..., 1]', setup, {'target': i, 'impl_b': b.tolist(), 'expected': g0.tolist() + [1.0]})
@@ -275,5 +293,24 @@ def check_setup(ctx, model, setup, oracle=True, prop='C07'):
             elif st == 'ok' and (not gen.close(bz, z[i], 1e-6, 1e-7) or not gen.close(bs, sigma[i], 1e-6, 1e-7)):
                 ctx.problem('oracle', 'estimate/variance differ from the solution of the ordinary-kriging system of the nearest neighbours within range', setup,
                             {'target': i, 'point': p, 'impl': [float(z[i]), float(sigma[i])], 'brute_force': [bz, bs]})
+    # ---- a second call on the same instance: counters and sigma belong to THAT call only
+    try:
+        sub = setup['targets'][::2] + [[1e6] * len(setup['targets'][0])]
+        z2 = np.asarray(run_transform(ok, sub), float)
+        s2 = np.asarray(ok.sigma, float)
+        nan2 = int(np.sum(np.isnan(z2)))
+        bounded = not setup['sparse'] or setup['model'] in ('spherical', 'cubic')     # truncated distances are only meaningful for bounded-range models
+        if (bounded and ok.no_points_error + ok.singular_error + ok.ill_matrix != nan2) or len(s2) != len(sub) or [a != a for a in z2.tolist()] != [a != a for a in s2.tolist()]:
+            ctx.problem('oracle', 'second transform call on the same instance: failure counters %r / variances do not belong to that call (%d NaN results)'
+                        % ([ok.no_points_error, ok.singular_error, ok.ill_matrix], nan2), setup, {'z_nan': [a != a for a in z2.tolist()], 'sigma_nan': [a != a for a in s2.tolist()]},
+                        {'what': 'second-call-bookkeeping'})
+        ref = {tuple(p_): (float(a), float(b)) for p_, a, b in zip(setup['targets'], z.tolist(), sigma.tolist())}
+        for p_, a, b in zip(sub[:-1], z2.tolist(), s2.tolist()):
+            ra, rb = ref[tuple(p_)]
+            if not (gen.close(a, ra, 1e-9, 1e-9) and gen.close(b, rb, 1e-9, 1e-9)):
+                ctx.problem('oracle', 'second transform call on the same instance returns other results for the same target', setup, {'target': p_, 'first': [ra, rb], 'second': [a, b]}, {'what': 'second-call-results'})
+                break
+    except Exception as e:
+        ctx.count('second_call_rejected', type(e).__name__)
     ctx.case_done(setup, nontrivial >= 2)
     return ok, V, z, sigma
